@@ -76,7 +76,7 @@ func (r *Result) Update(potIdx int, playerIdx int, wager int64, withdraw int64) 
 	}
 }
 
-func (r *Result) CalculateWinnerRewards(potIdx int, l *LevelInfo) {
+func (r *Result) CalculateWinnerRewards(potIdx int, l *LevelInfo, offset int64) int64 {
 
 	// Calculate contributer ranks of this pot by score
 	l.rank.Calculate()
@@ -88,16 +88,20 @@ func (r *Result) CalculateWinnerRewards(potIdx int, l *LevelInfo) {
 	based := l.Total / int64(len(winners))
 	remainder := l.Total % int64(len(winners))
 
+	// Odd chips go round the winners, continuing where the previous level of this pot stopped
+	count := int64(len(winners))
 	for i, wIdx := range winners {
 
 		reward := based
 
-		if int64(i) < remainder {
+		if (int64(i)-offset%count+count)%count < remainder {
 			reward += 1
 		}
 
 		r.Update(potIdx, wIdx, l.Wager, reward-l.Wager)
 	}
+
+	return offset + remainder
 }
 
 func (r *Result) CalculateLoserResults(potIdx int, l *LevelInfo) {
@@ -112,10 +116,11 @@ func (r *Result) CalculateLoserResults(potIdx int, l *LevelInfo) {
 
 func (r *Result) CalculatePot(potIdx int, p *PotResult) {
 
+	offset := int64(0)
 	for _, l := range p.level.levels {
 
 		// Calculate chips for multiple winners of this pot
-		r.CalculateWinnerRewards(potIdx, l)
+		offset = r.CalculateWinnerRewards(potIdx, l, offset)
 
 		// Update loser results
 		r.CalculateLoserResults(potIdx, l)
